@@ -45,6 +45,7 @@ def install(eng):
     for nm, v in (("Big0", 0), ("Big1", 1), ("Big2", 2), ("Big3", 3), ("Big32", 32), ("Big256", 256), ("Big257", 257)):
         eng.external_globals[C + nm] = (lambda v: (lambda e, st: intrinsics.big_new(e, st, v)))(v)
     eng.intrinsics.update(REG)
+    install_abigen(eng)
 
 
 # ------------------------------------------------------------------------------------ reflection over *types* only
@@ -573,3 +574,103 @@ def zz_httpresult(eng, st, fr, args, ins):
         elif out.tid == obj.tid:
             eng.store(st, out.val, eng.load(st, obj.val))
     return code
+
+
+# ---- abigen contract bindings: constructors return an opaque binding; Parse<Event>(log) decodes the log by the event's ABI
+# (indexed arguments from the topics, the others from 32-byte words of the data), as the generated code does with
+# bind.BoundContract.UnpackLog. The event table lists the events the repository's appenders use.
+CT = "github.com/0xPolygon/cdk-contracts-tooling/contracts/"
+ABIGEN_EVENTS = {
+    # (package path suffix, event): [(field, source, position, kind)]
+    ("polygonzkevmglobalexitrootv2", "UpdateL1InfoTree"): [("MainnetExitRoot", "topic", 1, "bytes32"), ("RollupExitRoot", "topic", 2, "bytes32")],
+    ("polygonzkevmglobalexitrootv2", "UpdateL1InfoTreeV2"): [("CurrentL1InfoRoot", "data", 0, "bytes32"), ("LeafCount", "topic", 1, "uint32"),
+                                                             ("Blockhash", "data", 1, "uint256"), ("MinTimestamp", "data", 2, "uint64")],
+    ("polygonzkevmglobalexitrootv2", "InitL1InfoRootMap"): [("LeafCount", "data", 0, "uint32"), ("CurrentL1InfoRoot", "data", 1, "bytes32")],
+    ("polygonrollupmanager", "VerifyBatches"): [("RollupID", "topic", 1, "uint32"), ("NumBatch", "data", 0, "uint64"), ("StateRoot", "data", 1, "bytes32"),
+                                                ("ExitRoot", "data", 2, "bytes32"), ("Aggregator", "topic", 2, "address")],
+    ("polygonrollupmanager", "VerifyBatchesTrustedAggregator"): [("RollupID", "topic", 1, "uint32"), ("NumBatch", "data", 0, "uint64"), ("StateRoot", "data", 1, "bytes32"),
+                                                                 ("ExitRoot", "data", 2, "bytes32"), ("Aggregator", "topic", 2, "address")],
+}
+ABIGEN_SIGS = {
+    "UpdateL1InfoTree": "UpdateL1InfoTree(bytes32,bytes32)", "UpdateL1InfoTreeV2": "UpdateL1InfoTreeV2(bytes32,uint32,uint256,uint64)",
+    "InitL1InfoRootMap": "InitL1InfoRootMap(uint32,bytes32)", "VerifyBatches": "VerifyBatches(uint32,uint64,bytes32,bytes32,address)",
+    "VerifyBatchesTrustedAggregator": "VerifyBatchesTrustedAggregator(uint32,uint64,bytes32,bytes32,address)",
+}
+
+
+def _abigen_new(eng, st, fr, args, ins):
+    return (eng.alloc_val(st, "zz:binding", ("binding",)), None)
+
+
+def _abigen_parse(eng, st, fr, args, ins, fname):
+    import re
+    import keccak as kk
+    m = re.match(r"\(\*(.*)/(\w+)\.(\w+)Filterer\)\.Parse(\w+)$", fname)
+    if not m:
+        raise Unsupported("abigen call " + fname)
+    pkgpath, pkg, contract, event = m.group(1) + "/" + m.group(2), m.group(2), m.group(3), m.group(4)
+    spec = ABIGEN_EVENTS.get((pkg, event))
+    if spec is None:
+        raise Unsupported("abigen event %s.%s is not in the model's table" % (pkg, event))
+    log = args[1]
+    lu = eng.ir.under("github.com/ethereum/go-ethereum/core/types.Log")
+    names = [f["name"] for f in lu["fields"]]
+    topics = eng.slice_elems(st, log[names.index("Topics")]) if log[names.index("Topics")] is not None else []
+    dsl = log[names.index("Data")]
+    data = list(eng.slice_elems(st, dsl)) if dsl is not None and dsl is not NIL_SLICE else []
+    sig = tuple(kk.keccak256(ABIGEN_SIGS[event].encode()))
+    if not topics:
+        return (None, intrinsics.new_error(eng, st, "no event signature"))
+    t0 = topics[0]
+    if any(is_sym(b) for b in t0) or tuple(t0) != sig:
+        if any(is_sym(b) for b in t0):
+            raise Unsupported("abigen parse with a symbolic event signature")
+        return (None, intrinsics.new_error(eng, st, "event signature mismatch"))
+    tid = "%s.%s%s" % (pkgpath, contract, event)
+    su = eng.ir.under(tid)
+    vals = {f["name"]: eng.zero(f["t"]) for f in su["fields"]}
+
+    def word(src, pos):
+        if src == "topic":
+            if pos >= len(topics):
+                raise Unsupported("abigen parse: missing topic")
+            return tuple(topics[pos])
+        w = tuple(data[32 * pos:32 * pos + 32])
+        if len(w) != 32:
+            raise Unsupported("abigen parse: short data")
+        return w
+    for field, src, pos, kind in spec:
+        w = word(src, pos)
+        if kind == "bytes32":
+            vals[field] = w
+        elif kind == "address":
+            vals[field] = w[12:]
+        elif kind in ("uint32", "uint64"):
+            n = 4 if kind == "uint32" else 8
+            if src == "data":
+                hi = w[:32 - n]
+                if any(is_sym(b) for b in hi):
+                    raise Unsupported("abigen parse: symbolic padding of an integer word")
+                if any(hi):
+                    return (None, intrinsics.new_error(eng, st, "abi: improperly encoded %s value" % kind))
+            v = eng.pack(w[32 - n:])
+            vals[field] = v.as_long() if z3.is_bv_value(v) else v
+        elif kind == "uint256":
+            v = eng.pack(w)
+            vals[field] = intrinsics.big_new(eng, st, v.as_long() if z3.is_bv_value(v) else v)
+    vals["Raw"] = log
+    return (eng.alloc_val(st, tid, tuple(vals[f["name"]] for f in su["fields"])), None)
+
+
+def _abigen_pattern(eng, st, fr, args, ins, fname=None):
+    raise Unsupported("abigen binding call")
+
+
+def install_abigen(eng):
+    for pkg, contract in (("pp/l2-sovereign-chain/polygonzkevmglobalexitrootv2", "Polygonzkevmglobalexitrootv2"), ("fep/etrog/polygonrollupmanager", "Polygonrollupmanager")):
+        eng.intrinsics[CT + pkg + ".New" + contract] = _abigen_new
+    for (pkg, event) in ABIGEN_EVENTS:
+        for full in (k for k in ("pp/l2-sovereign-chain/polygonzkevmglobalexitrootv2", "fep/etrog/polygonrollupmanager") if k.endswith(pkg)):
+            contract = {"polygonzkevmglobalexitrootv2": "Polygonzkevmglobalexitrootv2", "polygonrollupmanager": "Polygonrollupmanager"}[pkg]
+            name = "(*%s%s.%sFilterer).Parse%s" % (CT, full, contract, event)
+            eng.intrinsics[name] = (lambda e, s, f, a, i, n=name: _abigen_parse(e, s, f, a, i, n))
